@@ -47,10 +47,10 @@ static bool prefixes_ok(std::vector<LD> const &f, LD start, bool square_at_end)
 }
 static LD gam(unsigned k) { return (k * U_) / (1 - k * U_); }
 
-enum { L_PLU, L_LDL, L_LLT, L_ROW_EXCHANGE, L_SINGULAR_CLASS, L_MUST_SUCCEED, L_BAD_SCALE, L_NEAR_SINGULAR, L_GLOBAL_SCALE, L_LAST_STEP_SWAP, L_HILBERT, L_N_GE_8, L_FAILED_OK, L_PERM_NOT_INVOLUTION, L_DET_UNREPRESENTABLE, L_LARGE_ORDER, L_EXTREME_SCALE };
+enum { L_PLU, L_LDL, L_LLT, L_ROW_EXCHANGE, L_SINGULAR_CLASS, L_MUST_SUCCEED, L_BAD_SCALE, L_NEAR_SINGULAR, L_GLOBAL_SCALE, L_LAST_STEP_SWAP, L_HILBERT, L_N_GE_8, L_FAILED_OK, L_PERM_NOT_INVOLUTION, L_DET_UNREPRESENTABLE, L_LARGE_ORDER, L_EXTREME_SCALE, L_ZERO_DIAGONAL };
 static char const *const labels[] = {"plu", "ldl", "llt", "row_exchange_happened", "exactly_singular_class", "robustly_nonsingular_class", "rows_cols_scaled_2^k",
                                      "near_singular", "global_scale_2^s", "exchange_at_last_step", "hilbert_like", "n_ge_8", "factorization_reported_failure",
-                                     "permutation_not_self_inverse", "determinant_not_representable", "order_13_to_65_pattern_filled", "symmetric_scaling_over_nearly_the_whole_exponent_range", nullptr};
+                                     "permutation_not_self_inverse", "determinant_not_representable", "order_13_to_65_pattern_filled", "symmetric_scaling_over_nearly_the_whole_exponent_range", "determinant_family_on_a_given_factor_with_zero_diagonal", nullptr};
 static char const *const metrics[] = {"max_reconstruction_ratio", "max_solve_ratio", "max_inverse_ratio", "max_det_ratio", "max_lndet_ratio", nullptr};
 static uint8_t const dict[] = {3, 4, 7, 8, 9, 10, 11};
 static vp_info const info = {"C08", "factor", "", labels, metrics, 700, dict, sizeof(dict)};
@@ -800,6 +800,69 @@ static void check_sym(Tape &t, Ctx &cx, unsigned n, int kind)
     }
 }
 
+// determinant family on a compact factor given by the caller (not produced by the factorization just before): the three routines
+// read only the diagonal; a diagonal with exact zeros (either sign), negative entries and a tiny entry exercises the documented
+// return values -1 / 0 / +1 of sgndet and its agreement with det and lndet
+static void det_given(Tape &t, Ctx &cx, unsigned n, int which)
+{
+    Blk F(size_t(n) * n);
+    for (size_t i = 0; i < size_t(n) * n; ++i) { F.p[i] = R(int(t.u8() % 17) - 8) / 8; }
+    int sign = which == 0 ? ((t.u8() & 1) ? 1 : -1) : 1;
+    std::vector<LD> fac;
+    int sg = sign;
+    bool zero = false;
+    LD lsum = 0, labs = 0, prod = sign;
+    unsigned tiny_at = t.u8() % (2 * n);
+    for (unsigned i = 0; i < n; ++i)
+    {
+        uint8_t b = t.u8();
+        R d;
+        switch (b % 8)
+        {
+        case 0: d = (b & 8) ? R(-0.0) : R(0); break;
+        case 1: case 2: d = -(R(1) + R((b >> 3) % 16) / 16); break;
+        case 3: d = (b & 8) ? R(-0.5) : R(0.5); break;
+        case 4: d = (b & 8) ? R(-2) : R(2); break;
+        default: d = R(1) + R((b >> 3) % 16) / 16; break;
+        }
+        if (i == tiny_at) { d = (b & 16) ? -std::numeric_limits<R>::min() : std::numeric_limits<R>::min(); }
+        F.p[size_t(i) * n + i] = d;
+        fac.push_back(d);
+        if (d == 0) { zero = true; sg = 0; }
+        else
+        {
+            if (d < 0) { sg = -sg; }
+            lsum += logl(fabsl(LD(d)));
+            labs += fabsl(logl(fabsl(LD(d))));
+            prod *= d;
+        }
+        cx.hash.addd(double(d));
+    }
+    RoBlock rF(F.p, sizeof(R) * n * n, sizeof(R));
+    R const *Fp = rF.p ? (R const *)rF.p : F.p;
+    char const *nm = which == 0 ? "plu" : "ldl";
+    R det = which == 0 ? a_real_plu_det(n, Fp, sign) : a_real_ldl_det(n, Fp);
+    R lnd = which == 0 ? a_real_plu_lndet(n, Fp) : a_real_ldl_lndet(n, Fp);
+    int sd = which == 0 ? a_real_plu_sgndet(n, Fp, sign) : a_real_ldl_sgndet(n, Fp);
+    VP_CHECK(cx, sd == sg, which == 0 ? "plu:sgndet_given_factor" : "ldl:sgndet_given_factor", "%s_sgndet %d on a given factor whose diagonal has sign product %d (n=%u)", nm, sd, sg, n);
+    if (zero)
+    {
+        cx.label(L_ZERO_DIAGONAL);
+        VP_CHECK(cx, det == 0, which == 0 ? "plu:det_given_factor" : "ldl:det_given_factor", "%s_det %.9Lg on a factor with a zero on the diagonal", nm, LD(det));
+        VP_CHECK(cx, std::isinf(lnd) && lnd < 0, which == 0 ? "plu:lndet_given_factor" : "ldl:lndet_given_factor", "%s_lndet %.9Lg on a factor with a zero on the diagonal", nm, LD(lnd));
+    }
+    else
+    {
+        LD lb = CSAFE * (n + 2) * U_ * (labs + 1);
+        VP_CHECK(cx, fabsl(LD(lnd) - lsum) <= lb, which == 0 ? "plu:lndet_given_factor" : "ldl:lndet_given_factor", "%s_lndet %.21Lg, sum of log|d_i| %.21Lg (n=%u)", nm, LD(lnd), lsum, n);
+        if (prefixes_ok(fac, sign, false))
+        {
+            LD db = CSAFE * gam(2 * n + 2) * fabsl(prod);
+            VP_CHECK(cx, fabsl(LD(det) - prod) <= db, which == 0 ? "plu:det_given_factor" : "ldl:det_given_factor", "%s_det %.21Lg, product %.21Lg (n=%u)", nm, LD(det), prod, n);
+        }
+    }
+}
+
 static void run_case(Tape &t, Ctx &cx)
 {
     uint8_t h = t.u8();
@@ -820,5 +883,6 @@ static void run_case(Tape &t, Ctx &cx)
     ++cx.rep->subcases;
     if (which == 0) { check_plu(t, cx, n); }
     else { check_sym(t, cx, n, which - 1); }
+    if (which != 2 && t.u8() % 4 == 1) { det_given(t, cx, n, which); }
 }
 VP_DEFINE_RUN(run_case)
